@@ -95,6 +95,7 @@ Contract(RC, 'WARCRecorder.write_record', dict(RS, record=TObj('WARCRecord')), p
     modifies=['record.fields.map', 'record.fields.count', 'self.g_cdx_offset', 'self.g_cdx_size', 'self.g_cdx_calls', 'self.g_cdx_record', 'self.g_cdx_filename', 'all_of("BlockFile.pos")'],
     loops={0: {'invariant': [('archive-grows', 'startswith(content(%s), old(content(%s)))' % (W, W), {'C06', 'C07'}),
                              ('journal-present', 'fs_has(%s) and fs_text(%s) == %s' % (J, J, JTEXT), {'C06'}),
+                             ('journal-is-on-disk-not-in-a-buffer', 'fs_buffered(%s) == b""' % J, {'C06'}),
                              ('archive-exists', 'fs_has(%s)' % W, {'C06', 'C07'}),
                              ('offset', 'before_offset == len(old(content(%s)))' % W, {'C06', 'C07'})]}},
     crash_invariant=[(l, t, {'C06'}) for l, t in CI],
